@@ -70,7 +70,7 @@ CHECKS = {
         "§4 C03",
     ),
     "C08": (
-        "Hypothesis-generated histories (declaration/query interleavings with re-declarations - new ratios, and the same ratio restated in another numeric type, also as an enumerated scenario -, relatives of the final query, ring+spur definition graphs, Quantity and Measurement queries) replayed in two fresh worlds; differential oracle against the declarations-only world + repeat and graph-reachability invariants; a sample of verdicts re-derived in real subprocesses",
+        "Hypothesis-generated histories (declaration/query interleavings with re-declarations - new ratios, and the same ratio restated in another numeric type, also as an enumerated scenario -, enumerated echo-declaration and late-expansion scenarios, relatives of the final query, ring+spur definition graphs, Quantity and Measurement queries) replayed in two fresh worlds; differential oracle against the declarations-only world + repeat and graph-reachability invariants; a sample of verdicts re-derived in real subprocesses",
         "Exploration over histories: world A runs declarations interleaved with queries, world B (fresh import) the same declarations and only the final query; outcomes must agree; immediate repeats are bit-identical; units linked by the declarations so far never give ConversionNotFound.",
         "A fresh in-process world (measured purged from sys.modules and re-imported) stands for a fresh process.",
         "§4 C08, §2.3",
